@@ -3,6 +3,7 @@ package pkggen
 import (
 	"bytes"
 	"fmt"
+	"strings"
 
 	"github.com/SAP/go-dblib/asetypes"
 	"github.com/SAP/go-dblib/tds"
@@ -349,7 +350,7 @@ func LibEqual(p rc.P, last *rc.Fmt, pkg tds.Package) error {
 // EEDEqual compares an EED description with a library EED package.
 func EEDEqual(d rc.EED, g tds.EEDPackage) error {
 	if g.MsgNumber != d.MsgNumber || g.State != d.State || g.Class != d.Class || !bytes.Equal(g.SQLState, d.SQLState) || uint8(g.Status) != d.Status ||
-		g.TranState != d.Tran || g.Msg != d.Msg || g.ServerName != d.Server || g.ProcName != d.Proc || g.LineNr != d.Line {
+		g.TranState != d.Tran || g.Msg != strings.TrimSuffix(d.Msg, "\n") || g.ServerName != d.Server || g.ProcName != d.Proc || g.LineNr != d.Line {
 		return neq("eed", g, d)
 	}
 	return nil
